@@ -34,6 +34,8 @@ def layout(rng, ips, style=None, maxitems=None):
     style = style or rng.choice(["dense", "sparse", "adjacent", "zero", "edge", "longgap", "longitem", "single", "mixed"])
     n = rng.choice([1, 2, 3, ips, ips + 1, 2 * ips, 3 * ips + 2]) if maxitems is None else rng.randint(1, maxitems)
     n = max(1, min(n, 60))
+    if style in ("longgap", "longitem"):
+        n = min(n, 8)
     if style == "single":
         n = 1
     pos = rng.choice([0, 0, 1, 7])
@@ -48,9 +50,9 @@ def layout(rng, ips, style=None, maxitems=None):
         elif style == "zero":
             gap, ln = rng.choice([0, 2]), rng.choice([0, 0, 3])
         elif style == "longgap":
-            gap, ln = rng.choice([0, 1000, 5000]), rng.choice([1, 5])
+            gap, ln = rng.choice([0, 300, 1000]), rng.choice([1, 5])
         elif style == "longitem":
-            gap, ln = rng.choice([0, 3]), rng.choice([1, 300, 2000])
+            gap, ln = rng.choice([0, 3]), rng.choice([1, 1, 5, 300])
         else:
             gap, ln = rng.choice([0, 0, 1, 5, 9, 10, 11, 30]), rng.choice([0, 1, 2, 5, 10, 20, 33])
         if i > 0:
